@@ -251,6 +251,24 @@ impl SubFileSizes {
         let s = self;
         6 + s.lh + (s.ec - s.bc + 1) + s.nw + s.nh + s.nd + s.ni + s.nl + s.nk + s.ne + s.np
     }
+
+    /// The same calculation as [`SubFileSizes::valid_lf`] but performed with 32-bit integers.
+    ///
+    /// The sum of the sub file sizes in an arbitrary file does not fit in 16 bits in general.
+    fn valid_lf_i32(&self) -> i32 {
+        let s = self;
+        let d = |i: i16| -> i32 { i.into() };
+        6 + d(s.lh)
+            + (d(s.ec) - d(s.bc) + 1)
+            + d(s.nw)
+            + d(s.nh)
+            + d(s.nd)
+            + d(s.ni)
+            + d(s.nl)
+            + d(s.nk)
+            + d(s.ne)
+            + d(s.np)
+    }
 }
 
 impl From<[u8; 24]> for SubFileSizes {
@@ -377,11 +395,12 @@ impl<'a> RawFile<'a> {
             }
         }
         let s: SubFileSizes = {
-            let sb: [u8; 24] = b
-                .get(0..24)
-                .expect("3 < lf <= b.len()")
-                .try_into()
-                .expect("slice has 24 elements so fits in 24 length const array");
+            // The file may have fewer than 24 bytes (if lf is 4 or 5).
+            // TFtoPL reads the missing sub file sizes from its zero-initialized buffer.
+            let mut sb = [0_u8; 24];
+            for (dest, src) in sb.iter_mut().zip(b.iter()) {
+                *dest = *src;
+            }
             sb.into()
         };
 
@@ -444,7 +463,7 @@ impl<'a> RawFile<'a> {
                 warnings,
             );
         }
-        if s.lf != s.valid_lf() {
+        if i32::from(s.lf) != s.valid_lf_i32() {
             return (
                 Err(DeserializationError::InconsistentSubFileSizes(s.clone())),
                 warnings,
